@@ -50,6 +50,8 @@ class Result:
         self.min_instances = 0
         self.trusted = []
         self.exceptions = []
+        from . import rat
+        rat.BUDGET[0] = 6_000_000
 
     def ok(self, sample=None):
         self.obligations += 1
